@@ -49,8 +49,8 @@ func intrinsicTable() map[string]func(in *Interp, fr *frame, args []Value) Value
 	m["verifU32"] = nd(32)
 	m["verifU16"] = nd(16)
 	m["verifU8"] = nd(8)
-	m["verifInt"] = nd(64)
-	m["verifUintptr"] = nd(64)
+	m["verifInt"] = func(in *Interp, fr *frame, args []Value) Value { return in.nondet(argStr(args[0]), wordBits) }
+	m["verifUintptr"] = m["verifInt"]
 	m["verifI32"] = nd(32)
 	m["verifBool"] = nd(0)
 	m["verifBytes"] = func(in *Interp, fr *frame, args []Value) Value {
@@ -159,16 +159,16 @@ func intrinsicTable() map[string]func(in *Interp, fr *frame, args []Value) Value
 	}
 	// process image
 	m["verifImgLoad"] = func(in *Interp, fr *frame, args []Value) Value {
-		return in.imgLoad(args[0].(*Term), 1)
+		return in.imgLoad(ZExt(args[0].(*Term), 64), 1)
 	}
 	m["verifImgLoad64"] = func(in *Interp, fr *frame, args []Value) Value {
-		return in.imgLoad(args[0].(*Term), 8)
+		return in.imgLoadW(args[0].(*Term), 8)
 	}
 	m["verifImgLoad32"] = func(in *Interp, fr *frame, args []Value) Value {
-		return in.imgLoad(args[0].(*Term), 4)
+		return in.imgLoadW(args[0].(*Term), 4)
 	}
 	m["verifImgStore"] = func(in *Interp, fr *frame, args []Value) Value {
-		in.imgStore(args[0].(*Term), args[1].(*Term))
+		in.imgStore(ZExt(args[0].(*Term), 64), args[1].(*Term))
 		return nil
 	}
 	m["verifImgSnap"] = func(in *Interp, fr *frame, args []Value) Value {
@@ -180,7 +180,7 @@ func intrinsicTable() map[string]func(in *Interp, fr *frame, args []Value) Value
 	}
 	m["verifImgAt"] = func(in *Interp, fr *frame, args []Value) Value {
 		h := argInt(args[0])
-		return Select(in.path.snaps[h], args[1].(*Term))
+		return Select(in.path.snaps[h], ZExt(args[1].(*Term), 64))
 	}
 	m["verifImgWrites"] = func(in *Interp, fr *frame, args []Value) Value {
 		return BV(wordBits, uint64(in.path.imgWrites))
@@ -285,4 +285,22 @@ func (in *Interp) noteQuery(pc []*Term, extra *Term, id string) {
 	if _, ok := in.queryDump[id]; !ok && len(in.queryDump) < 64 {
 		in.queryDump[id] = QueryText(pc, extra)
 	}
+}
+
+// imgLoadW: multi-byte little-endian load whose per-byte addresses are computed in the
+// address width of the target (wraps at 2^32 on 386) and then zero-extended.
+func (in *Interp) imgLoadW(addr *Term, nbytes int) *Term {
+	if addr.w == 64 {
+		return in.imgLoad(addr, nbytes)
+	}
+	var res *Term
+	for i := nbytes - 1; i >= 0; i-- {
+		b := Select(in.path.image, ZExt(Add(addr, BV(addr.w, uint64(i))), 64))
+		if res == nil {
+			res = b
+		} else {
+			res = Concat(res, b)
+		}
+	}
+	return res
 }
